@@ -48,3 +48,22 @@ package api
 //@ func EncodeF64(input float64) uint64
 //@   ensures[round-trip] input == input ==> DecodeF64(r0) == input
 //@   modifies nothing
+
+// ---- C03: feature gates. Validation and both compilers accept a post-MVP instruction exactly when
+// RequireEnabled / IsEnabled say its feature is on; these decide it by the feature's bit(s) alone, and
+// SetEnabled changes those bits and no others. Case contracts (verified on their own; callers keep
+// executing the bodies).
+//@ prop C03
+//@ case gate (f CoreFeatures) RequireEnabled(feature CoreFeatures) error
+//@   ensures[error-exactly-when-no-bit-of-the-feature-is-on] (r0 == nil) == (f&feature != 0)
+//@   modifies nothing
+//@   nosafety
+
+//@ case gate (f CoreFeatures) IsEnabled(feature CoreFeatures) bool
+//@   ensures[decided-by-the-bits] r0 == (f&feature != 0)
+//@   modifies nothing
+
+//@ case gate (f CoreFeatures) SetEnabled(feature CoreFeatures, val bool) CoreFeatures
+//@   ensures[sets-or-clears-exactly-those-bits] (val ==> r0&feature == feature) && (!val ==> r0&feature == 0) && r0&^feature == f&^feature
+//@   ensures[then-decided-accordingly] feature != 0 ==> (r0&feature != 0) == val
+//@   modifies nothing
